@@ -231,10 +231,9 @@ end rules
 theorem const_two_eval (r : NodeRule) (s : Nat → V) (h : r.const = 2) : r.eval s = 2 := by
   unfold NodeRule.eval
   rw [h]
-  have := le_vmax_left (2 : V) (joinList (r.terms.map fun t => t.fn.f (joinList (t.children.map s))))
   apply Fin.le_antisymm
   · exact Fin.le_last _
-  · exact this
+  · exact Fin.le_trans (le_vmax_left (2 : V) _) (le_vmax_left _ _)
 
 /-! ## non-vacuity -/
 example : derivesOfItem { deriveDefault := true } ⟨fun _ => true, fun _ => true, fun _ => true,
